@@ -139,7 +139,7 @@ def _replay_target(ctx):
 
 def run(ctx):
     s1 = ctx.proof_obligations()
-    n = 260 if ctx.quick else 5000
+    n = 260 if ctx.quick else 3500
     rp = _replay_target(ctx)
     r = analyse(ctx, rp[0], only=rp[1]) if rp else analyse(ctx, n)
     s2_ok, detail, searched = True, None, None
